@@ -16,14 +16,29 @@
     C19_simplify_total      on a finite orbit the loop returns or raises within |orbit| + 1 passes
     C19_deterministic       the outcome does not depend on the step budget once it is reached
 
-  Not proven (stated for the record): that the real `simplify_once` has no revisits on the program space,
-  i.e. that "Optimizer does not converge" is never raised (C19_fragment_measure of DESIGN.md §6) — this is
-  covered by the search only.
+  The SIMPLIFY stage as a rewrite system (DxModel/SimplifyMeasure.lean: trees of node kind + number of columns,
+  relation `Step` = one firing of a modelled rule shape anywhere in the tree, measure `msr`):
+
+    C19_simplify_step_decreases        every `Step` strictly decreases `msr` (lexicographic quadruple)
+    C19_simplify_fragment_terminates   `WellFounded (flip Step)`: no infinite sequence of firings
+    C19_simplify_fragment_acyclic      … in particular no tree is ever reached again (never loops)
+    C19_simplify_recogniser_sound      what the driver's recogniser `stepB` accepts is a `Step` with a smaller measure
+    C19_simplify_converges             if every pass that changes the expression decreases `msr`, the `simplify` loop
+                                       returns a fixpoint of the pass for every sufficiently large budget
+    C19_simplify_never_noconv          … and never reports "Optimizer does not converge"
+    C19_simplify_idempotent            … and simplifying its result again returns the result
+    C19_simplify_fragment_converges    the same when every changing pass is a non-empty sequence of `Step`s
+    C19_driver_simplify_converges      the same for the driver model of C01 (Drivers.lean `simplify` over `Expr`)
+
+  Not proven: an explicit numeric bound on the number of firings (the order type of the measure is ω⁴: a filter that
+  crosses an operator may copy its predicate into two join inputs, so lower components can grow when a higher one
+  drops).  Rule shapes outside the fragment are listed in harness/props/c19.py::PARTIAL with observed counts.
 -/
 import DxModel.Lemmas.FusionMeasure
 import DxModel.Lemmas.Termination
 import DxModel.Lemmas.TerminationLower
 import DxModel.Generated.Lowers
+import DxModel.Lemmas.SimplifyMeasure
 namespace Dx
 open Term
 
@@ -69,12 +84,12 @@ theorem C19_lower_terminates_table (table : List (Nat × List Nat)) (ranks : Lis
   lower_terminates hresp (rankOK_sound table ranks hok) t
 
 theorem C19_lower_fixpoint (low : T → Option T) (F P : Nat) (t r : T) (n m : Nat)
-    (h : lowerCompletely low F P t n = some (r, m)) : lowerOnce low F r = some r :=
+    (h : Term.lowerCompletely low F P t n = some (r, m)) : Term.lowerOnce low F r = some r :=
   lowerCompletely_fixpoint F P t r n m h
 
 namespace C19Ex
 /-- classes 2 → 1 → 0: `2(x, y)` lowers to `1(1(y), x)`, `1(x)` lowers to `0(x, x)` (a copy) -/
-def rules : List (Nat × Pat) := [(2, .new 1 [.new 1 [.kid 1], .kid 0]), (1, .new 0 [.kid 0, .kid 0])]
+def rules : List (Nat × Term.Pat) := [(2, .new 1 [.new 1 [.kid 1], .kid 0]), (1, .new 0 [.kid 0, .kid 0])]
 def table : List (Nat × List Nat) := [(2, [1]), (1, [0])]
 def leaf : T := .node 0 []
 def t0 : T := .node 2 [.node 1 [leaf], leaf]
@@ -82,39 +97,39 @@ end C19Ex
 open C19Ex
 
 example : rankOK C19Ex.table [1, 2] = true := by decide
-example : (lowerCompletely (lowOfRules rules) 8 8 t0 0).map (·.2) = some 3 := by decide
+example : (Term.lowerCompletely (lowOfRules rules) 8 8 t0 0).map (·.2) = some 3 := by decide
 
 /-! ### 3. simplify -/
 
 /-- When the loop exits normally the result is a fixpoint of the pass (the stage is idempotent) and
     is an iterate of the pass on the input. -/
-theorem C19_simplify_fixpoint (step : Nat → Nat) (fuel e r : Nat) (h : simplify step fuel e = some (.ok r)) :
+theorem C19_simplify_fixpoint (step : Nat → Nat) (fuel e r : Nat) (h : Term.simplify step fuel e = some (.ok r)) :
     step r = r ∧ ∃ n, r = iter step n e :=
   (simplifyLoop_spec step e fuel 0 e [] _ (SInv.init step e) h).1 r rfl
 
 /-- The loop reports non-convergence only if the pass revisits an expression it produced before:
     `new = step e'` and two different iterates (`1 ≤ i < j`) of the input coincide. -/
 theorem C19_simplify_noconv (step : Nat → Nat) (fuel e a b : Nat)
-    (h : simplify step fuel e = some (.noconv a b)) :
+    (h : Term.simplify step fuel e = some (.noconv a b)) :
     b = step a ∧ ∃ i j, 1 ≤ i ∧ i < j ∧ iter step i e = iter step j e :=
   (simplifyLoop_spec step e fuel 0 e [] _ (SInv.init step e) h).2 a b rfl
 
 /-- If all iterates of the input lie in a finite set, the loop returns or raises within
     `|set| + 1` passes (the `seen` set cannot grow beyond the orbit). -/
 theorem C19_simplify_total (step : Nat → Nat) (e : Nat) (univ : List Nat) (horbit : ∀ j, iter step j e ∈ univ)
-    (fuel : Nat) (hf : univ.length + 1 ≤ fuel) : (simplify step fuel e).isSome = true :=
+    (fuel : Nat) (hf : univ.length + 1 ≤ fuel) : (Term.simplify step fuel e).isSome = true :=
   simplifyLoop_total step e univ horbit fuel 0 e [] (SInv.init step e) (by omega)
 
 /-- The outcome is a function of the pass alone: a larger step budget returns the same outcome. -/
 theorem C19_deterministic (step : Nat → Nat) : ∀ (fuel : Nat) (e : Nat) (seen : List Nat) (out : SimpOut),
-    simplifyLoop step fuel e seen = some out → ∀ fuel', fuel ≤ fuel' → simplifyLoop step fuel' e seen = some out := by
+    Term.simplifyLoop step fuel e seen = some out → ∀ fuel', fuel ≤ fuel' → Term.simplifyLoop step fuel' e seen = some out := by
   intro fuel
   induction fuel with
-  | zero => intro e seen out h; simp [simplifyLoop] at h
+  | zero => intro e seen out h; simp [Term.simplifyLoop] at h
   | succ fuel ih =>
     intro e seen out h fuel' hle
     obtain ⟨f, rfl⟩ : ∃ f, fuel' = f + 1 := ⟨fuel' - 1, by omega⟩
-    simp only [simplifyLoop] at h ⊢
+    simp only [Term.simplifyLoop] at h ⊢
     by_cases h1 : step e = e
     · simpa [h1] using h
     · by_cases h2 : step e ∈ seen
@@ -125,9 +140,159 @@ theorem C19_deterministic (step : Nat → Nat) : ∀ (fuel : Nat) (e : Nat) (see
 /-- 0 → 1 → 2 → 2 converges to 2; 3 → 4 → 3 is reported as non-convergent -/
 def C19Ex.step : Nat → Nat := fun x => if x = 0 then 1 else if x = 1 then 2 else if x = 3 then 4 else if x = 4 then 3 else x
 
-example : simplify C19Ex.step 10 0 = some (.ok 2) := by decide
-example : simplify C19Ex.step 10 3 = some (.noconv 3 4) := by decide
+example : Term.simplify C19Ex.step 10 0 = some (.ok 2) := by decide
+example : Term.simplify C19Ex.step 10 3 = some (.noconv 3 4) := by decide
 example : ∃ i j, 1 ≤ i ∧ i < j ∧ iter C19Ex.step i 3 = iter C19Ex.step j 3 :=
   (C19_simplify_noconv C19Ex.step 10 3 3 4 (by decide)).2
+
+/-! ### 4. the simplify stage as a terminating rewrite system -/
+
+namespace C19Frag
+open SM SM.Tr
+end C19Frag
+
+/-- Every firing of a modelled rule shape, anywhere in the expression, strictly decreases the measure
+    `(potF, flow, potP, potB)` in the lexicographic order; the rewritten expression has no more columns
+    and no more operator nodes than before. -/
+theorem C19_simplify_step_decreases {t t' : SM.Tr} (h : SM.Step t t') :
+    SM.LtQ (SM.msr t') (SM.msr t) ∧ t'.w ≤ t.w ∧ SM.fs t' ≤ SM.fs t :=
+  ⟨SM.step_ltQ h, (SM.step_good h).w_le, (SM.step_good h).fs_le⟩
+
+/-- The fragment is strongly normalising: there is no infinite sequence of rule firings. -/
+theorem C19_simplify_fragment_terminates : WellFounded (flip SM.Step) := SM.step_wf
+
+/-- … and no expression is ever reached again from itself. -/
+theorem C19_simplify_fragment_acyclic (t : SM.Tr) : ¬ Relation.TransGen SM.Step t t :=
+  fun h => SM.ltQ_irrefl _ (SM.transGen_ltQ h)
+
+/-- What the driver answers for a traced firing (`stepB` = "is an instance of a rule shape", `ltQ` = "the measure
+    decreases") is backed by the relation the theorems are about. -/
+theorem C19_simplify_recogniser_sound (t t' : SM.Tr) (h : SM.stepB t t' = true) :
+    SM.Step t t' ∧ SM.ltQ (SM.msr t') (SM.msr t) = true :=
+  ⟨SM.stepB_sound t t' h, (SM.ltQ_eq_true _ _).mpr (SM.step_ltQ (SM.stepB_sound t t' h))⟩
+
+/-- The `simplify` loop (Termination.lean; expressions named by numbers, `tree` = the expression behind a name):
+    if every pass that changes the expression decreases the measure, then from every expression the loop returns —
+    for every budget from some `n` on — one and the same fixpoint of the pass, an iterate of the pass on the input. -/
+theorem C19_simplify_converges (step : Nat → Nat) (tree : Nat → SM.Tr)
+    (hpass : ∀ e, step e ≠ e → SM.LtQ (SM.msr (tree (step e))) (SM.msr (tree e))) (e : Nat) :
+    ∃ n r, step r = r ∧ (∃ k, r = iter step k e) ∧ ∀ fuel, n ≤ fuel → Term.simplify step fuel e = some (.ok r) :=
+  SM.simplifyLoop_converges step tree hpass e [] (fun _ hx => nomatch hx)
+
+/-- … it never reports "Optimizer does not converge" -/
+theorem C19_simplify_never_noconv (step : Nat → Nat) (tree : Nat → SM.Tr)
+    (hpass : ∀ e, step e ≠ e → SM.LtQ (SM.msr (tree (step e))) (SM.msr (tree e))) (e fuel a b : Nat) :
+    Term.simplify step fuel e ≠ some (.noconv a b) := by
+  intro h
+  obtain ⟨n, r, _, _, hn⟩ := C19_simplify_converges step tree hpass e
+  have h1 := C19_deterministic step fuel e [] _ h (max fuel n) (Nat.le_max_left _ _)
+  have h2 := hn (max fuel n) (Nat.le_max_right _ _)
+  simp only [Term.simplify] at h2
+  rw [h1] at h2
+  cases h2
+
+/-- … and the stage is idempotent: simplifying the result again returns it unchanged. -/
+theorem C19_simplify_idempotent (step : Nat → Nat) (tree : Nat → SM.Tr)
+    (hpass : ∀ e, step e ≠ e → SM.LtQ (SM.msr (tree (step e))) (SM.msr (tree e))) (e : Nat) :
+    ∃ n r, (∀ fuel, n ≤ fuel → Term.simplify step fuel e = some (.ok r)) ∧
+      ∀ fuel, 1 ≤ fuel → Term.simplify step fuel r = some (.ok r) := by
+  obtain ⟨n, r, hr, _, hn⟩ := C19_simplify_converges step tree hpass e
+  refine ⟨n, r, hn, ?_⟩
+  intro fuel hf
+  obtain ⟨f, rfl⟩ : ∃ f, fuel = f + 1 := ⟨fuel - 1, by omega⟩
+  simp [Term.simplify, Term.simplifyLoop, hr]
+
+/-- The hypothesis holds when every changing pass consists of firings of the modelled rule shapes. -/
+theorem C19_simplify_fragment_converges (step : Nat → Nat) (tree : Nat → SM.Tr)
+    (hfrag : ∀ e, step e ≠ e → Relation.TransGen SM.Step (tree e) (tree (step e))) (e : Nat) :
+    (∃ n r, step r = r ∧ (∃ k, r = iter step k e) ∧ ∀ fuel, n ≤ fuel → Term.simplify step fuel e = some (.ok r)) ∧
+    ∀ fuel a b, Term.simplify step fuel e ≠ some (.noconv a b) :=
+  ⟨C19_simplify_converges step tree (fun e h => SM.transGen_ltQ (hfrag e h)) e,
+   fun fuel a b => C19_simplify_never_noconv step tree (fun e h => SM.transGen_ltQ (hfrag e h)) e fuel a b⟩
+
+/-- The same for the driver model used by C01 (Drivers.lean: `simplify_once` with its dependents map, cache and
+    trace; `simplify` with the `seen` list): on a set `S` of expressions that a pass does not leave and on which the
+    per-pass fuel `m` suffices, if every changing pass decreases the measure of the abstracted expression, `simplify`
+    ends with status `ok` — neither `nonconverge` nor `fuel` — for every sufficiently large loop budget. -/
+theorem C19_driver_simplify_converges (R : Rules) (m : Nat) (abs : Expr → SM.Tr) (S : Expr → Prop)
+    (hpass : ∀ e tr, S e → (simplifyOnce R m e ⟨collectDependents e, [], tr, false⟩).2.exhausted = false ∧
+      S (simplifyOnce R m e ⟨collectDependents e, [], tr, false⟩).1 ∧
+      ((simplifyOnce R m e ⟨collectDependents e, [], tr, false⟩).1 ≠ e →
+        SM.LtQ (SM.msr (abs (simplifyOnce R m e ⟨collectDependents e, [], tr, false⟩).1)) (SM.msr (abs e))))
+    (e : Expr) (he : S e) (tr : List Firing) :
+    ∃ n, ∀ fuel, n ≤ fuel → (Dx.simplifyLoop R m fuel e [] tr).1.st = .ok :=
+  SM.driver_simplifyLoop_converges R m abs S hpass e [] tr he (fun _ hx => nomatch hx)
+
+/-! #### non-vacuity -/
+namespace C19Frag
+open SM SM.Tr
+
+def io3 : Tr := .op 3 []
+
+/-- `merge(l, r)[["a", "k"]]`: the projection is copied into both join inputs and stays on top (`keep = true`) -/
+def mergeBefore : Tr := .proj 2 (.op 5 [io3, io3])
+def mergeAfter : Tr := .proj 2 (.op 3 [.proj 2 io3, .proj 2 io3])
+example : Step mergeBefore mergeAfter := stepB_sound _ _ (by decide)
+example : msr mergeBefore = (0, 19, 3, 0) ∧ msr mergeAfter = (0, 15, 7, 0) := by decide
+
+/-- a filter `x[x.a > 0]` on `x = astype(assign(io))` crosses both operators, its predicate follows it -/
+def pred (x : Tr) : Tr := .op 1 [.proj 1 x]
+def f0 : Tr := .filt 3 (.op 3 [.op 4 [io3]]) (pred (.op 3 [.op 4 [io3]]))
+def f1 : Tr := .op 3 [.filt 4 (.op 4 [io3]) (pred (.op 4 [io3]))]
+def f2 : Tr := .op 3 [.op 4 [.filt 3 io3 (pred io3)]]
+example : Relation.TransGen Step f0 f2 :=
+  .tail (.single (stepB_sound f0 f1 (by decide))) (stepB_sound f1 f2 (by decide))
+example : msr f0 = (3, 47, 3, 0) ∧ msr f1 = (2, 40, 2, 0) ∧ msr f2 = (1, 31, 1, 0) := by decide
+
+/-- squashing: `x[p][q]` → `x[p & q']`, `x[cols][col]` → `x[col]`, `assign(assign(x, a), b)` → `assign(x, a, b)` -/
+def sq0 : Tr := .filt 3 (.filt 3 io3 (pred io3)) (pred (.filt 3 io3 (pred io3)))
+def sq1 : Tr := .filt 3 io3 (.op 1 [pred io3, pred io3])
+example : Step sq0 sq1 := stepB_sound _ _ (by decide)
+example : msr sq0 = (3, 39, 7, 0) ∧ msr sq1 = (1, 26, 2, 0) := by decide
+example : Step (.proj 1 (.proj 2 io3)) (.proj 1 io3) := Step.projSquash
+example : Step (.op 5 [.op 4 [io3, pred io3], pred io3]) (.op 5 [io3, pred io3, pred io3]) := stepB_sound _ _ (by decide)
+
+/-- a projection absorbed by an IO node, `Partitions` absorbed by `_partitions`, `Len` through an elemwise operator,
+    `head` pushed into both operands of a binary operator -/
+example : Step (.proj 2 io3) (.op 2 []) := stepB_sound _ _ (by decide)
+example : Step (.blind 3 io3) io3 := stepB_sound _ _ (by decide)
+example : Step (.blind 0 (.op 3 [io3])) (.blind 0 io3) := stepB_sound _ _ (by decide)
+example : Step (.blind 3 (.op 3 [io3, io3])) (.op 3 [.blind 3 io3, .blind 3 io3]) := stepB_sound _ _ (by decide)
+
+/-- the two shapes that are NOT in the fragment form a cycle in the model (no measure can decrease along both):
+    the Filter/Filter squash is in, its inverse — `Merge._simplify_up(Filter)` splitting an And predicate — is out -/
+example : ¬ Step sq1 sq0 := fun h => ltQ_irrefl _ (ltQ_trans (step_ltQ h) (step_ltQ (stepB_sound sq0 sq1 (by decide))))
+
+/-- the loop theorem on a three-pass run f0 → f1 → f2 → f2 -/
+def names : Nat → Tr := fun i => if i = 0 then f0 else if i = 1 then f1 else f2
+def pass : Nat → Nat := fun i => if i = 0 then 1 else if i = 1 then 2 else i
+example : Term.simplify pass 5 0 = some (.ok 2) := by decide
+example : ∀ e, pass e ≠ e → LtQ (msr (names (pass e))) (msr (names e)) := by
+  intro e h
+  by_cases h0 : e = 0
+  · subst h0; exact (ltQ_eq_true _ _).mp (by decide)
+  · by_cases h1 : e = 1
+    · subst h1; exact (ltQ_eq_true _ _).mp (by decide)
+    · exact absurd (by simp [pass, h0, h1]) h
+
+
+/-- the driver-model theorem on a stub rule system: class 1 rewrites itself to class 0 (`_simplify_down`), abstracted
+    as an IO node that reads fewer columns -/
+def stubRules : Rules := (Table.toRules { down := [⟨.node 1 none [], .node 0 none []⟩] })
+def ea : Expr := .node 1 0 []
+def eb : Expr := .node 0 0 []
+def stubAbs : Expr → Tr := fun e => if e.cls = 1 then .op 3 [] else .op 2 []
+example : ∀ tr, ∃ n, ∀ fuel, n ≤ fuel → (Dx.simplifyLoop stubRules 2 fuel ea [] tr).1.st = .ok := by
+  intro tr
+  refine C19_driver_simplify_converges stubRules 2 stubAbs (fun e => e = ea ∨ e = eb) ?_ ea (Or.inl rfl) tr
+  intro e tr' he
+  rcases he with rfl | rfl
+  · have h : (simplifyOnce stubRules 2 ea ⟨collectDependents ea, [], tr', false⟩).1 = eb := rfl
+    refine ⟨rfl, Or.inr rfl, fun _ => ?_⟩
+    rw [h]
+    exact (ltQ_eq_true _ _).mp (by decide)
+  · refine ⟨rfl, Or.inr rfl, fun h => absurd rfl h⟩
+
+end C19Frag
 
 end Dx
